@@ -32,7 +32,7 @@ SPEC = dict(
                  "libstdc++ layout of std::string (SSO buffer inside the object) and std::initializer_list (checked at start-up)",
                  "states are prepared through assign()/clear() of the class itself (verified after preparation)"],
     modes=[
-        dict(name="c10exh", flavour="asan", cases=37968, exhaustive=True, eval_stat="calls",
+        dict(name="c10exh", flavour="asan", cases=39648, exhaustive=True, eval_stat="calls",
              args={"gridlevel": {"quick": 1, "thorough": 2}}, env=_ENV, timeout=3600,
              require_stats=["op.insert_idx_count_ch", "op.swap", "op.iterator_edge_forward.0"]),
         dict(name="c10hist", flavour="asan", cases={"quick": 16000, "thorough": 800000}, eval_stat="calls",
